@@ -31,3 +31,24 @@ pub fn install() {
 pub fn records() -> u64 {
     RECORDS.load(Ordering::Relaxed)
 }
+
+struct Stderr;
+
+impl log::Log for Stderr {
+    fn enabled(&self, _: &log::Metadata) -> bool {
+        true
+    }
+    fn log(&self, record: &log::Record) {
+        eprintln!("[{}] {}: {}", record.level(), record.target(), record.args());
+    }
+    fn flush(&self) {}
+}
+
+static STDERR: Stderr = Stderr;
+
+/// debugging aid for replays: print the repository's log records
+pub fn install_stderr(level: log::LevelFilter) {
+    if log::set_logger(&STDERR).is_ok() {
+        log::set_max_level(level);
+    }
+}
